@@ -678,6 +678,15 @@ def tab_cli_iters(run, pc, usage):
                     if report_error_in_region(pc, reg) and err_return_in_region(pc, reg):
                         ok0 = True
     run.check(ok0, R, R + "|iters-zero-rejected", pc.loc(), "`--iters 0` is reported and rejected", "`--iters 0` is not rejected with error+Err")
+    # the budget is the number written, unchanged
+    from rules_sym import deep
+    vals = []
+    for bi, si, st in pc.stmts():
+        if st["k"] == "assign" and st["place"]["p"] and isinstance(st["place"]["p"][-1], dict) and st["place"]["p"][-1].get("name") == "max_iterations" and st["rv"]["k"] == "use":
+            vals.append(deep(pc, st["rv"]["op"], 10))
+    okv = len(vals) == 1 and bool(re.fullmatch(r"str::parse\(Matches::opt_str\(.*, \"t\"\)@Some\.0\)@Ok\.0", vals[0]))
+    run.check(okv, R, R + "|iters-value-unchanged", pc.loc(), "the iteration budget is the number given to -t, unchanged",
+              "the iteration budget stored is `%s`, not the number given to -t itself: the number of passes reported can exceed the budget the user asked for" % [v[-90:] for v in vals])
 
 
 def _reach_straight(f, b, limit=12):
